@@ -601,3 +601,89 @@ func DelegatesTo(p *load.Prog, r *oblig.Report, rule string, fn *ssa.Function, l
 		r.Unknown(rule, construct, p.Pos(fn.Pos()), "no successful return found")
 	}
 }
+
+// ErrorConstructors (R5.5 for the printer): every error origin reachable in funcs is nil, the result
+// of one of the named constructors of the repository's errors package, or the error of a library
+// call that is returned unchanged from a decoding step.
+func ErrorConstructors(p *load.Prog, r *oblig.Report, rule string, funcs []*ssa.Function, constructors []string) {
+	inSet := map[*ssa.Function]bool{}
+	for _, f := range funcs {
+		inSet[f] = true
+	}
+	allowed := map[string]bool{}
+	for _, c := range constructors {
+		allowed[c] = true
+	}
+	n := 0
+	for _, f := range funcs {
+		ei := returnsError(f)
+		if ei < 0 {
+			continue
+		}
+		if pk := load.FuncPkg(f); pk != nil && load.ShortPkg(pk) == "errors" {
+			continue // the documented constructors themselves
+		}
+		seen := map[ssa.Value]bool{}
+		var origin func(v ssa.Value, at ssa.Instruction)
+		origin = func(v ssa.Value, at ssa.Instruction) {
+			if seen[v] {
+				return
+			}
+			seen[v] = true
+			switch x := v.(type) {
+			case *ssa.Const:
+				if x.IsNil() {
+					return
+				}
+			case *ssa.Phi:
+				for _, e := range x.Edges {
+					origin(e, at)
+				}
+				return
+			case *ssa.Extract:
+				origin(x.Tuple, at)
+				return
+			case *ssa.MakeInterface:
+				origin(x.X, at)
+				return
+			case *ssa.Parameter:
+				return
+			case *ssa.Call:
+				callee := x.Common().StaticCallee()
+				if callee == nil {
+					// dynamic call of a printer function value (parseFn): judged at the possible callees
+					return
+				}
+				pk := load.FuncPkg(callee)
+				if inSet[callee] && returnsError(callee) >= 0 && !(pk != nil && load.ShortPkg(pk) == "errors") {
+					return
+				}
+				n++
+				construct := fmt.Sprintf("error-origin:%s:%s", load.FuncName(f), callee.Name())
+				switch {
+				case pk != nil && load.ShortPkg(pk) == "errors" && !allowed[callee.Name()]:
+					r.Bad(rule, construct, p.Pos(x.Pos()), "the printer fails with "+callee.Name()+", which is not one of the documented kinds of failure ("+strings.Join(constructors, ", ")+")")
+				case pk != nil && load.ShortPkg(pk) == "errors" && allowed[callee.Name()]:
+					r.OK(rule, construct, p.Pos(x.Pos()), "documented-constructor", callee.Name())
+				case pk != nil && !load.IsRepoPkg(pk) && strings.Contains(callee.Name(), "nmarshal"):
+					r.OK(rule, construct, p.Pos(x.Pos()), "decoder-error", load.FuncName(callee))
+				default:
+					r.Bad(rule, construct, p.Pos(x.Pos()), "the printer can fail with an error made by "+load.FuncName(callee)+", which is none of the documented constructors ("+strings.Join(constructors, ", ")+")")
+				}
+				return
+			}
+			n++
+			r.Unknown(rule, fmt.Sprintf("error-origin:%s:%T", load.FuncName(f), v), p.Pos(at.Pos()), "cannot trace where this error value comes from")
+		}
+		for _, b := range f.Blocks {
+			for _, in := range b.Instrs {
+				if ret, ok := in.(*ssa.Return); ok && ei < len(ret.Results) {
+					origin(ret.Results[ei], ret)
+				}
+			}
+		}
+	}
+	if n == 0 {
+		r.Unknown(rule, "error-origin:none", "-", "no error origin found: anchors no longer resolve")
+	}
+}
